@@ -24,6 +24,25 @@ def prepare(params):
     fm94.load_tables()
     pbk.warm_tables()
     pbk.decoder()
+    _native_table_loading()
+
+
+def _native_table_loading():
+    """
+    TableGroupCache.get loads the JSON table files and builds ~1500 descriptor objects: under tracing that alone is
+    20-40 s per call (measured: 45 s per path in h_protocol).  The real method is kept, it merely runs with tracing
+    suspended; no solver value is branched on inside (extra entries are stored as they are).
+    """
+    from pybufrkit.tables import TableGroupCache
+    if getattr(TableGroupCache.get, '_native', False):
+        return
+    orig = TableGroupCache.get
+
+    def get(self, table_group_key):
+        with NoTracing():
+            return orig(self, table_group_key)
+    get._native = True
+    TableGroupCache.get = get
 
 
 def _reset_tables():
@@ -135,20 +154,20 @@ def h_apply(ctx):
     d_entries = {k: ['NEW SEQUENCE', list(v)] for k, v in d_members.items()}
     TableGroupCacheManager.invalidate()
     TableGroupCacheManager.add_extra_entries(b_entries, d_entries)
-    with NoTracing():
-        pbk.warm_tables()       # table files are loaded natively (the entries, symbolic fields included, are only stored)
     src = ctx.source('S', 512)
+    # the width is decided first (one fork per width); the real code still receives the solver term
+    wc = ctx.concrete(w, 1, 32)
+    B2, D2 = _extended({'048001': ('NEW ELEMENT', unit, scale, ref, wc)}, d_members)
+    try:
+        out = fm94.reference_decode(ctx, ids, src, tables=(B2, D2), max_factor=p.get('max_factor', 2), inline_sequences=True,
+                                    no_missing=bool(p.get('no_missing')))
+    except fm94.RefMalformed:
+        ctx.witness('malformed')
+        return None
     try:
         td, pos, _ = pbk.decode_template_data(ctx, ids, src)
     except Exception as e:
         return {'what': 'decoding a message over the defined descriptors raised', 'exc': repr(e)[:300], 'ids': ids}
-    wc = ctx.concrete(w, 1, 32)
-    B2, D2 = _extended({'048001': ('NEW ELEMENT', unit, scale, ref, wc)}, d_members)
-    try:
-        out = fm94.reference_decode(ctx, ids, src, tables=(B2, D2), max_factor=p.get('max_factor', 2), inline_sequences=True)
-    except fm94.RefMalformed:
-        ctx.witness('malformed')
-        return None
     d = fm94.compare_subset(pbk.labels(td.decoded_descriptors_all_subsets[0]), td.decoded_values_all_subsets[0], None, out.outs[0])
     if d:
         d['ids'] = ids
@@ -190,12 +209,13 @@ def h_protocol(ctx):
     p = ctx.params
     _reset_tables()
     thorough = p.get('wide', False)
+    narrow = p.get('narrow', False)      # fewer definition variants (used where the stream has more messages)
     ssign_p, ssign = _sym_char(ctx, 'ssign', '+-')
-    scale_p, scale = _sym_char(ctx, 'scale', '012' if thorough else '01')
-    rsign_p, rsign = _sym_char(ctx, 'rsign', '+-')
-    ref_p, ref = _sym_char(ctx, 'ref', '0379' if thorough else '07')
+    scale_p, scale = _sym_char(ctx, 'scale', '1' if narrow else ('012' if thorough else '01'))
+    rsign_p, rsign = _sym_char(ctx, 'rsign', '-' if narrow else '+-')
+    ref_p, ref = _sym_char(ctx, 'ref', '7' if narrow else ('0379' if thorough else '07'))
     wt_p, wt = _sym_char(ctx, 'wtens', ' 1')
-    wo_p, wo = _sym_char(ctx, 'wones', '1358' if thorough else '38')
+    wo_p, wo = _sym_char(ctx, 'wones', '3' if narrow else ('1358' if thorough else '38'))
     n_b = 1 + ctx.choice('n_b', 2)
     n_d = ctx.choice('n_d', 3)
     n_def_subsets = 1 if not p.get('empty_definition') else 0
@@ -237,23 +257,51 @@ def h_protocol(ctx):
     # the section is made long enough for any case; trailing bits are padding
     n_data_bits = 96
     dataparts, datatotal = msgbuild.message_parts(ids, [('src', data, n_data_bits)], n_data_bits, n_subsets=1, edition=4, category=0)
-    stream = streams.flatten_parts(ctx, list(defparts) + list(dataparts), string_alphabet=[ord(c) for c in '+- 0123456789'])
-    got = []
-    err = None
-    try:
-        for bm in generate_bufr_message(pbk.decoder(), stream):
-            got.append(bm)
-            if len(got) > 2:
-                break
-    except Exception as e:
-        err = e
-    # the definitions as written on this path
+    # the definitions as written on this path (the solver characters are decided here, before anything is decoded)
     n_scale = int(scale())
     n_ref = int(ref() + '5')
     width = int((wt() + wo()).strip())
     b_defs = {'048001': ('NEW ELEMENT', 'K', n_scale if ssign() == '+' else -n_scale, n_ref if rsign() == '+' else -n_ref, width)}
     if n_b == 2:
         b_defs['048002'] = ('NEW CODE', 'CODE TABLE', 0, 0, 6)
+    # optionally a SECOND definition message that gives 048001 (and the first sequence) another meaning
+    def2parts = []
+    if p.get('redefine') and ctx.choice('redefine', 2):
+        q2 = [('val', 0, 8), ('val', 1, 8)]
+        q2 += _chars('0', 1) + _chars('48', 2) + _chars('001', 3) + _chars('REDEFINED', 32) + _chars('', 32) + _chars('NUMERIC', 24)
+        q2 += _chars('+', 1) + _chars('0', 3) + _chars('-', 1) + _chars('10', 10) + _chars('7', 3)
+        b_defs['048001'] = ('REDEFINED', 'NUMERIC', 0, -10, 7)
+        if n_d >= 1:
+            members = ['001004', '048001', '048001']
+            q2 += [('val', 1, 8)] + _chars('3', 1) + _chars('48', 2) + _chars('001', 3) + _chars('NEW SEQUENCE', 64) + [('val', len(members), 8)]
+            for mm in members:
+                q2 += _chars(mm, 6)
+            d_defs['348001'] = members
+        else:
+            q2 += [('val', 0, 8)]
+        nb2 = sum((len(q) * 8) if isinstance(q, (bytes, bytearray)) else q[2] for q in q2)
+        def2parts, _ = msgbuild.message_parts(DEF_TEMPLATE, q2, nb2, n_subsets=1, edition=4, category=11)
+        ctx.witness('redefined')
+    B2, D2 = _extended(b_defs, d_defs)
+    malformed = False
+    out = None
+    if n_def_subsets:
+        try:
+            out = fm94.reference_decode(ctx, ids, data, tables=(B2, D2), max_factor=1, inline_sequences=True,
+                                        no_missing=not p.get('with_missing'))
+        except fm94.RefMalformed:
+            malformed = True
+    stream = streams.flatten_parts(ctx, list(defparts) + list(def2parts) + list(dataparts),
+                                   string_alphabet=[ord(c) for c in '+- 0123456789'])
+    got = []
+    err = None
+    try:
+        for bm in generate_bufr_message(pbk.decoder(), stream):
+            got.append(bm)
+            if len(got) > 3:
+                break
+    except Exception as e:
+        err = e
     if n_def_subsets == 0:
         # nothing was defined: the data message cannot be decoded (its descriptors are in no table)
         from pybufrkit.errors import PyBufrKitError
@@ -261,18 +309,17 @@ def h_protocol(ctx):
             return {'what': 'a definition message without subsets must define nothing', 'delivered': len(got), 'exc': repr(err)[:200]}
         ctx.witness('nothing-defined')
         return None
-    if err is not None:
-        return {'what': 'scanning [definition message, data message] raised', 'exc': repr(err)[:300], 'delivered': len(got),
-                'definitions': repr(b_defs), 'ids': ids}
-    if len(got) != 2 or got[0].data_category.value != 11:
-        return {'what': 'messages delivered', 'n': len(got)}
-    B2, D2 = _extended(b_defs, d_defs)
-    try:
-        out = fm94.reference_decode(ctx, ids, data, tables=(B2, D2), max_factor=1, inline_sequences=True)
-    except fm94.RefMalformed:
+    if malformed:
+        # e.g. a missing (all ones) replication factor: the data message is not a valid one
         ctx.witness('malformed')
         return None
-    td = got[1].template_data.value
+    if err is not None:
+        return {'what': 'scanning [definition message(s), data message] raised', 'exc': repr(err)[:300], 'delivered': len(got),
+                'definitions': repr(b_defs), 'ids': ids}
+    n_defs = 2 if def2parts else 1
+    if len(got) != n_defs + 1 or got[0].data_category.value != 11:
+        return {'what': 'messages delivered', 'n': len(got)}
+    td = got[-1].template_data.value
     d = fm94.compare_subset(pbk.labels(td.decoded_descriptors_all_subsets[0]), td.decoded_values_all_subsets[0], None, out.outs[0])
     if d:
         d['ids'] = ids
